@@ -76,6 +76,20 @@ OneWrongAt(j) ==     \* j in 1..(31 * 5): positions beyond the length wrap
   LET s == Subseqs[1 + ((j - 1) \div 5)]
       p == 1 + ((j - 1) % Len(s))
   IN  TItem("domain_one_wrong", DedupDomainDoc([s EXCEPT ![p] = s[p] + 5]))
+\* every well-formed member sequence (31) with ONE more member inserted at every position - a foreign member, a repeated
+\* standard member, a standard member with a wrong type - and with two foreign members appended: a valid beginning,
+\* middle or end does not make a domain type valid
+ExtraChoices == <<11, 1, 3, 5, 8>>
+NPlusExtra == 31 * 6 * Len(ExtraChoices) + 31
+PlusExtraAt(j) ==
+  IF j <= 31 * 6 * Len(ExtraChoices) THEN
+    LET s   == Subseqs[1 + ((j - 1) % 31)]
+        pos == ((j - 1) \div 31) % 6                      \* insert after the first pos members (clipped to the length)
+        x   == ExtraChoices[1 + ((j - 1) \div (31 * 6))]
+        at  == IF pos > Len(s) THEN Len(s) ELSE pos
+        seq == SubSeq(s, 1, at) \o <<x>> \o SubSeq(s, at + 1, Len(s))
+    IN  TItem("domain_wellformed_plus_one", DedupDomainDoc(seq))
+  ELSE TItem("domain_wellformed_plus_one", DedupDomainDoc(Subseqs[j - 31 * 6 * Len(ExtraChoices)] \o <<11, 11>>))
 NLongSeqs == IF Thorough THEN 20000 ELSE 300
 LongSeqAt(j) ==
   LET len == 4 + PrngNat(K("dl", <<j>>), 4)
